@@ -21,10 +21,25 @@ NEG = {
     "token_outlives_arena": "let mut m = { let mut b = arena(); b.finish_marking().unwrap() }; m.start_sweeping();",
     "token_cloned": "let mut m = a.finish_marking().unwrap(); let m2 = m.clone(); m.start_sweeping(); m2.start_sweeping();",
     "token_returned_from_finalize": "let mut m = a.finish_marking().unwrap(); let fc2 = m.finalize(|fc, _| fc);",
+    "token_forged": "let m = MarkedArena(&mut a); m.finalize(|_, _| ());",
+    "token_inner_arena_used": "let mut m = a.finish_marking().unwrap(); m.0.finish_cycle(); m.finalize(|_, _| ());",
+    "token_inner_arena_taken": "let mut m = a.finish_marking().unwrap(); let MarkedArena(inner) = m; inner.finish_cycle();",
+    "is_dead_with_mutation": "a.mutate(|mc, root| { let _ = Gc::is_dead(mc, *root); });",
+    "weak_is_dead_with_mutation": "a.mutate(|mc, root| { let _ = Gc::downgrade(*root).is_dead(mc); });",
+    "resurrect_with_mutation": "a.mutate(|mc, root| { Gc::resurrect(mc, *root); });",
+    "weak_resurrect_with_mutation": "a.mutate(|mc, root| { let _ = Gc::downgrade(*root).resurrect(mc); });",
+    "is_dead_with_foreign_finalization": "let mut b = arena(); b.finish_marking().unwrap().finalize(|fcb, _| { a.mutate(|_, ra| { let _ = Gc::is_dead(fcb, *ra); }); });",
+    "weak_is_dead_with_foreign_finalization": "let mut b = arena(); b.finish_marking().unwrap().finalize(|fcb, _| { a.mutate(|_, ra| { let _ = Gc::downgrade(*ra).is_dead(fcb); }); });",
+    "resurrect_with_foreign_finalization": "let mut b = arena(); b.finish_marking().unwrap().finalize(|fcb, _| { a.mutate(|_, ra| { Gc::resurrect(fcb, *ra); }); });",
+    "weak_resurrect_with_foreign_finalization": "let mut b = arena(); b.finish_marking().unwrap().finalize(|fcb, _| { a.mutate(|_, ra| { let _ = Gc::downgrade(*ra).resurrect(fcb); }); });",
+    "finalization_from_mutation": "a.mutate(|mc, root| { let fc: &gc_arena::Finalization<'_> = mc; });",
+    "finalization_constructed": "a.mutate(|mc, root| { let fc = gc_arena::Finalization::from(mc); });",
     "finalization_context_kept": "let mut keep = None; a.finish_marking().unwrap().finalize(|fc, _| { keep = Some(fc); }); let _k = keep;",
 }
 POS = {
     "finalize_once_then_new_token": "{ let mut m = a.finish_marking().unwrap(); m.finalize(|_, _| ()); } a.finish_marking().unwrap().start_sweeping(); a.finish_cycle();",
+    "queries_with_own_finalization": "a.finish_marking().unwrap().finalize(|fc, root| { let w = Gc::downgrade(*root); let _ = (Gc::is_dead(fc, *root), w.is_dead(fc), w.resurrect(fc)); Gc::resurrect(fc, *root); }); a.finish_cycle();",
+    "foreign_mutate_inside_finalize": "let mut b = arena(); b.finish_marking().unwrap().finalize(|fcb, rb| { a.mutate(|_, ra| { let _ = (Gc::is_dead(fcb, *rb), ra.get()); }); });",
     "mark_debt_token": "if let Some(mut m) = a.mark_debt() { m.finalize(|_, _| ()); } a.finish_cycle();",
 }
 
@@ -36,4 +51,4 @@ def wrap(body):
 def generate(tier):
     ps = [Probe(f"marked_arena_linear/{k}", wrap(v), "reject", group="marked_arena") for k, v in NEG.items()]
     ps += [Probe(f"marked_arena_linear/twin/{k}", wrap(v), "accept", group="marked_arena") for k, v in POS.items()]
-    return {"probes": ps, "rule": "a MarkedArena is consumed by finalize / start_sweeping (no second use), borrows its arena mutably (no mutate / collection / second token while it lives), cannot outlive the arena, be cloned, or leak its Finalization context; twins: one use per token compiles"}
+    return {"probes": ps, "rule": "a MarkedArena is consumed by finalize / start_sweeping (no second use), borrows its arena mutably (no mutate / collection / second token while it lives), cannot outlive the arena, be cloned, forged or opened (no access to the arena behind it), or leak its Finalization context; is_dead / resurrect (strong and weak) need the Finalization context of the SAME arena - a Mutation or another arena's Finalization is rejected, and no Finalization can be made from a Mutation; twins: one use per token compiles"}
